@@ -447,7 +447,7 @@ func (c *twoPhaseCommitter) buildPipelinedResolveHandler(commit bool, resolved *
 			}
 			resolved.Add(1)
 			res.CompletedRegions++
-			if loc.EndKey == nil || bytes.Compare(loc.EndKey, r.EndKey) >= 0 {
+			if len(loc.EndKey) == 0 || bytes.Compare(loc.EndKey, r.EndKey) >= 0 {
 				return res, nil
 			}
 			start = loc.EndKey
